@@ -30,7 +30,7 @@ THEOREMS = [_T + n for n in [
     "nonword_name_counterexample", "arity", "call_style", "build_accepts_iff", "nonnull_style_counterexample",
     "finder_rejects_iff", "finder_rejects_full_partial", "call_sites_found_partial", "receiver_not_name_counterexample", "receiver_bound",
     "result_visible", "includes_added", "pipeline_sound_partial", "query_sound_partial",
-    "unique_name_injective_partial", "fresh_counterexample", "builtins_satisfy_hypotheses", "nonnull_is_modelled",
+    "unique_name_injective_partial", "fresh_counterexample", "builtins_satisfy_hypotheses", "builtins_signatures", "nonnull_is_modelled",
 ]]
 RULE = (
     "four streams. subst: template lines built from parameter names, longer words containing them, member accesses, "
@@ -143,9 +143,21 @@ def translate(ctx):
 
 # ---------------------------------------------------------------------------------------------- conversions
 
+# documented: value or collection (README: getAttributeFloat / getAttributeVectorFloat); the expectation the Spec is
+# evaluated with uses the documented kind, everything else of a built-in comes from the source
+DOCUMENTED_COLLECTION = {"DeltaR": False, "getAttributeFloat": False, "getAttributeVectorFloat": True}
+
+
+def _documented(k: str, h: Any) -> Any:
+    if isinstance(h, dict) and "spec" in h and k in DOCUMENTED_COLLECTION:
+        return {"spec": {**h["spec"], "isCollection": DOCUMENTED_COLLECTION[k]}}
+    return h
+
+
 def driver_table(backend: str) -> List[List[Any]]:
     out = []
     for k, h in tables()[backend]:
+        h = _documented(k, h)
         if isinstance(h, dict) and "arityonly" in h:
             out.append([k, "nonnull"])
         elif h == "refuse" or (isinstance(h, dict) and "spec" in h):
@@ -155,7 +167,7 @@ def driver_table(backend: str) -> List[List[Any]]:
 
 
 def gen_table(backend: str) -> List[List[Any]]:
-    return [[k, ("nonnull" if isinstance(h, dict) and "arityonly" in h else h)] for k, h in tables()[backend]
+    return [[k, ("nonnull" if isinstance(h, dict) and "arityonly" in h else _documented(k, h))] for k, h in tables()[backend]
             if h == "refuse" or (isinstance(h, dict) and ("spec" in h or "arityonly" in h))]
 
 
@@ -548,7 +560,7 @@ def generated_cases(ctx):
         yield "build", gen.build_case(rng)
     for _ in range(1500 if quick else 15000):
         yield "find", gen.find_case(rng)
-    for _ in range(700 if quick else 7000):
+    for _ in range(600 if quick else 7000):
         be = rng.choice(["atlas"] * 8 + ["cms_aod", "cms_miniaod"])
         yield "query", gen.query_case(rng, be, gen_table(be))
 
@@ -585,6 +597,11 @@ def run(ctx):
         from c11_lib import exec_oracle
 
         exec_oracle.run(ctx)
+        # independent re-check of the compiled proofs by the external kernel checker
+        rc, out, err = vlib.sh(["lake", "env", "leanchecker"] + LEAN_MODULES, cwd=vlib.LEAN, timeout=1200)
+        ctx.notes.append("leanchecker %s: rc=%d" % (" ".join(LEAN_MODULES), rc))
+        if rc != 0:
+            ctx.broken.append({"kind": "leanchecker", "output": (out + err)[-1500:]})
     ctx.extra_cov["exhaustive"] = False
     ctx.extra_cov["exhaustive_part"] = "all template lines of <=%d characters over {a,b,+,space} x 6 replacement lists" % (5 if ctx.tier == "quick" else 6)
     ctx.extra_cov["outside_hypotheses"] = (
